@@ -86,6 +86,18 @@ def value_worker(case):
                                       all(getattr(r, f) is getattr(a, f) for f in type(a)._fields[1:]),
                                       objcheck.expand(a) == before,
                                       getattr(r._metadata, 'position_info', None) == a._metadata.position_info]
+                    # an object derived from one that was hashed before is a value like any other: equal to a freshly
+                    # constructed object with the same fields, and then with the same hash
+                    try:
+                        hash(a)
+                        fresh = type(a)(*(['NEW'] + [getattr(a, f) for f in type(a)._fields[1:]]))
+                        r2 = a._replace(**{f0: 'NEW'})
+                        ops['derived_hash'] = [bool(r2 == fresh), hash(r2) == hash(fresh), hash(r) == hash(fresh)]
+                    except TypeError:
+                        pass                               # unhashable field values
+                    fl = type(a)._fields[-1]
+                    rl = a._replace(**{fl: 'LAST'})
+                    ops['replace_last'] = [getattr(rl, fl) == 'LAST', list(rl._asdict().keys()) == list(type(a)._fields)]
                     rn = a._replace(**{f0: None})          # None is a value like any other
                     r0 = a._replace(**{f0: 0})
                     ops['replace_none'] = [getattr(rn, f0) is None, getattr(r0, f0) == 0 and getattr(r0, f0) is not None,
